@@ -71,6 +71,7 @@ package execution
 //@   requires [only_after_success] (target.Command == "" || (target.mainRan && target.mainOK)) && target.checksOK
 //@   ensures [written_under_current_key] err == nil ==> cacheWrites > old(cacheWrites) && lastWrittenKey == target.ChangeHash
 //@   ensures [no_output_hash_is_change_hash] err == nil && !inSlice(target.Tags, "no-cache") && e.enableCache && len(target.Outputs) == 0 && target.BinOutput.Identifier == "" ==> target.OutputHash == target.ChangeHash
+//@   ensures [declared_outputs_written] err == nil && !inSlice(target.Tags, "no-cache") && e.enableCache && (len(target.Outputs) > 0 || target.BinOutput.Identifier != "") && !old(target.outputsStored) ==> target.outputsStored
 //@   ensures [outputs_marked_loaded] err == nil ==> target.OutputsLoaded
 //@   ensures [loaded_monotone] forall x *model.Target :: {x.OutputsLoaded} old(x.OutputsLoaded) ==> x.OutputsLoaded
 //@   ghostset target.resultWritten := target.resultWritten || cacheWrites > old(cacheWrites)
